@@ -194,12 +194,13 @@ structure Fix where
   undefRef : Bool
   /-- C08-06 (N1): the predicate of an array/dictionary/stream check is applied -/
   compoundPred : Bool
-  /-- (N2) a disjunction reached through a name (or left un-normalised below a name) is expanded -/
+  /-- C08-07 (N2): a disjunction that reaches the work loop (through a name, or as an alternative
+      that was not flattened) is put back as a pending set of its own and expanded -/
   namedDisj : Bool
-  /-- (#23) predicate and indirect requirement of a disjunction apply (guard ∧ bare disjunction),
-      and `normalize_check` only flattens attribute-free nested disjunctions -/
+  /-- C08-08 (#23): predicate and indirect requirement of a disjunction apply (guard ∧ bare
+      disjunction), and `normalize_check` only flattens attribute-free nested disjunctions -/
   disjAttrs : Bool
-  /-- (#26) reference chains are followed to their value; a chain that cycles is null -/
+  /-- C08-09 (#26): reference chains are followed to their value; a chain that cycles is null -/
   refChain : Bool
   /-- (#25) the memo is restored when an alternative of a disjunction fails -/
   trail : Bool
@@ -211,10 +212,11 @@ deriving DecidableEq, Repr
 
 def Fix.orig : Fix := ⟨false, false, false, false, false, false, false, false, false, false, false⟩
 
-/-- the code after the patches delivered in /verif/pending_fixes (C08-01 .. C08-06) -/
+/-- the code after the patches delivered in /verif/pending_fixes (C08-01 .. C08-09) -/
 def Fix.tree : Fix :=
   { Fix.orig with memoFull := true, anyAttrs := true, staleIdx := true, staleErr := true,
-                  undefRef := true, compoundPred := true }
+                  undefRef := true, compoundPred := true,
+                  namedDisj := true, disjAttrs := true, refChain := true }
 
 /-- every repair switched on (used by the classifier only) -/
 def Fix.all : Fix := ⟨true, true, true, true, true, true, true, true, true, true, true⟩
@@ -268,7 +270,10 @@ def Graph.lookup : Graph → Nat × Nat → Option Obj
   | [], _ => none
   | (k, v) :: t, id => if k = id then some v else Graph.lookup t id
 
-/-- (fix refChain) follow a reference chain: `fuel` = number of definitions + 1 suffices to detect a cycle -/
+/-- (fix refChain, C08-09) follow a reference chain.  The Rust loop keeps the set of ids it has looked
+    up and stops at the first repetition; ids are unique in the graph, so a chain of distinct defined
+    ids has at most `g.length` links and `fuel` = number of definitions + 1 gives the same result
+    (a value, or null for an undefined target or a cycle). -/
 def Graph.chase (g : Graph) : Nat → Obj → Obj
   | 0, _ => .null
   | n+1, .ref a b =>
@@ -312,7 +317,7 @@ inductive Act where
   | pass                   -- `result` stays `None`, nothing pushed
   | ret (p : Pend)         -- `state.return_check(p)`
   | push (ps : List Pend)  -- `state.push_checks(ps)`
-  | pushRaw (ps : List Pend)  -- (fix namedDisj) a new pending set, not filtered by the memo
+  | pushRaw (ps : List Pend)  -- (fix namedDisj) `push_disjunct`: a new pending set, not filtered by the memo
 deriving Repr
 
 def ofPred (r : Option EK) : Act :=
@@ -452,7 +457,7 @@ def checkShape (fx : Fix) (ctx : Ctx) (o : Obj) (c : Chk) : Act :=
 /-- the whole `match`: references first, then the indirect requirement, then the type.
     `tc` is the pending check as queued (possibly `named`), `c` its resolution. -/
 def processCheck (fx : Fix) (g : Graph) (ctx : Ctx) (o : Obj) (tc c : Chk) : Act :=
-  if fx.namedDisj && c.isDisj then .pushRaw [(o, c.norm fx)] else
+  if fx.namedDisj && c.isDisj then .pushRaw [(o, c)] else
   match o, c.attr.ind with
   | .ref _ _, .forbidden => .fail .valueMismatch
   | .ref a b, _ =>
